@@ -39,8 +39,9 @@ VARIABLES files,    \* [Pages -> page]       page = [ex, broken, notes : Seq(not
           nuid,     \* ghost: uids handed out
           snap,     \* ghost: [uid -> text/kind/prio the note had when its page was last indexed] (or NoSnap)
           steps, last,
-          lastArg   \* paths argument of the last reindex ({} = plain)
-vars == << files, db, hashes, nextId, wl, today, nuid, snap, steps, last, lastArg >>
+          lastArg,  \* paths argument of the last reindex ({} = plain)
+          trash     \* ghost: [Pages -> the content a page had when the user last deleted it] (restored by RestorePage)
+vars == << files, db, hashes, nextId, wl, today, nuid, snap, steps, last, lastArg, trash >>
 
 NoHash == [ex |-> FALSE, broken |-> FALSE, notes |-> << <<"nohash">> >>]
 NoSnap == << >>
@@ -117,22 +118,27 @@ InitIndexed ==
         /\ hashes = files /\ nextId = [d \in 1..MaxDay |-> IF d = 1 THEN Cardinality(Pages) ELSE 0]
         /\ wl = {} /\ today = 1 /\ nuid = Cardinality(Pages)
         /\ snap = [u \in 1..MaxUid |-> IF u \in Pages THEN TextOf(Note0(u)) ELSE NoSnap]
-        /\ steps = 0 /\ last = "create" /\ lastArg = {}
+        /\ steps = 0 /\ last = "create" /\ lastArg = {} /\ trash = [p \in Pages |-> Absent]
 
 Init == /\ files = [p \in Pages |-> Absent] /\ db = [p \in Pages |-> Absent]
         /\ hashes = [p \in Pages |-> NoHash] /\ nextId = [d \in 1..MaxDay |-> 0]
         /\ wl = {} /\ today = 1 /\ nuid = 0 /\ snap = [u \in 1..MaxUid |-> NoSnap]
-        /\ steps = 0 /\ last = "init" /\ lastArg = {}
+        /\ steps = 0 /\ last = "init" /\ lastArg = {} /\ trash = [p \in Pages |-> Absent]
 
 Has(f) == f \in Feature
 Tick == steps < MaxSteps /\ steps' = steps + 1
-User(a) == Tick /\ last' = a /\ UNCHANGED << db, hashes, nextId, wl, snap, lastArg >>
+UserT(a, t) == Tick /\ last' = a /\ trash' = t /\ UNCHANGED << db, hashes, nextId, wl, snap, lastArg >>
+User(a) == UserT(a, trash)
 SameDay == today' = today
 
 \* ----- the user's edits (the alphabet of C06 / C11 histories)
 AddPage(p)  == ~Exists(p) /\ files' = [files EXCEPT ![p] = [ex |-> TRUE, broken |-> FALSE, notes |-> << >>]]
                /\ SameDay /\ UNCHANGED nuid /\ User("AddPage")
-DelPage(p)  == Has("DelPage") /\ Exists(p) /\ files' = [files EXCEPT ![p] = Absent] /\ SameDay /\ UNCHANGED nuid /\ User("DelPage")
+DelPage(p)  == Has("DelPage") /\ Exists(p) /\ files' = [files EXCEPT ![p] = Absent] /\ SameDay /\ UNCHANGED nuid
+               /\ UserT("DelPage", [trash EXCEPT ![p] = files[p]])
+\* the page comes back exactly as it was (moved back, restored from a backup)
+RestorePage(p) == Has("DelPage") /\ ~Exists(p) /\ trash[p].ex /\ files' = [files EXCEPT ![p] = trash[p]]
+                  /\ SameDay /\ UNCHANGED nuid /\ User("RestorePage")
 RenamePage(p, q) == Has("Rename") /\ Exists(p) /\ ~Exists(q) /\ files' = [files EXCEPT ![q] = files[p], ![p] = Absent]
                     /\ SameDay /\ UNCHANGED nuid /\ User("RenamePage")
 NewNote(kp, ld, gap, nl) ==
@@ -177,7 +183,7 @@ DbCreate(force) ==
        /\ hashes' = [p \in Pages |-> IF Exists(p) THEN r[1][p] ELSE NoHash]
        /\ wl'     = { p \in Existing : files[p].broken }
        /\ snap'   = SnapAfter(Existing, r[1])
-  /\ SameDay /\ UNCHANGED nuid /\ last' = "create" /\ lastArg' = (IF force THEN {0} ELSE {})
+  /\ SameDay /\ UNCHANGED << nuid, trash >> /\ last' = "create" /\ lastArg' = (IF force THEN {0} ELSE {})
 \* refused: the old index is gone, ZIDs of the pages walked before the offending one are burnt, nothing else changes
 Before(S, bad) == { p \in S : \A b \in bad : p < b }
 DbCreateRefused ==
@@ -185,7 +191,7 @@ DbCreateRefused ==
   /\ LET r == Process(Before(Existing, BadFor(Existing, FALSE)), files, nextId, FALSE) IN CtrOK(r[2]) /\ nextId' = r[2]
   /\ db' = [p \in Pages |-> Absent]
   /\ hashes' = [p \in Pages |-> NoHash]          \* nothing is indexed any more, so nothing is vouched for
-  /\ SameDay /\ UNCHANGED << files, wl, nuid, snap >> /\ last' = "refusedCreate" /\ lastArg' = {}
+  /\ SameDay /\ UNCHANGED << files, wl, nuid, snap, trash >> /\ last' = "refusedCreate" /\ lastArg' = {}
 
 \* ----- db reindex (paths = {} : every page whose content differs from what the hash map vouches for)
 Changed(paths) == { p \in (IF paths = {} THEN Existing ELSE paths \cap Existing) : hashes[p] # files[p] }
@@ -203,17 +209,17 @@ DbReindex(paths) ==
        /\ hashes' = [p \in Pages |-> IF ~Exists(p) THEN NoHash ELSE IF p \in S THEN r[1][p] ELSE hashes[p]]
        /\ wl'     = wl \ { p \in S : ~files[p].broken }
        /\ snap'   = SnapAfter(S, r[1])
-  /\ SameDay /\ UNCHANGED nuid /\ last' = (IF paths = {} THEN "reindex" ELSE "reindexPaths") /\ lastArg' = paths
+  /\ SameDay /\ UNCHANGED << nuid, trash >> /\ last' = (IF paths = {} THEN "reindex" ELSE "reindexPaths") /\ lastArg' = paths
 DbReindexRefused(paths) ==
   /\ Tick /\ BadFor(Changed(paths), FALSE) # {} /\ (paths # {} => Has("Paths")) /\ paths \subseteq Existing
   /\ LET S == Before(Changed(paths), BadFor(Changed(paths), FALSE))
          r == Process(S, files, nextId, TRUE) IN
        /\ CtrOK(r[2]) /\ nextId' = r[2]
        /\ db' = [p \in Pages |-> IF p \in S THEN Compile(r[1][p], today) ELSE db[p]]     \* committed page by page
-  /\ SameDay /\ UNCHANGED << files, hashes, wl, nuid, snap >> /\ last' = "refusedReindex" /\ lastArg' = paths
+  /\ SameDay /\ UNCHANGED << files, hashes, wl, nuid, snap, trash >> /\ last' = "refusedReindex" /\ lastArg' = paths
 
 Next ==
-  \/ \E p \in Pages : AddPage(p) \/ DelPage(p) \/ BreakPage(p) \/ FixPage(p)
+  \/ \E p \in Pages : AddPage(p) \/ DelPage(p) \/ RestorePage(p) \/ BreakPage(p) \/ FixPage(p)
   \/ \E p, q \in Pages : RenamePage(p, q)
   \/ \E p \in Pages, pos \in 0..MaxNotes, kp \in Kinds, ld \in (IF Has("LongDate") THEN 0..1 ELSE {0}),
         gap \in (IF Has("Gap") THEN {1, 3} ELSE {1}), nl \in (IF Has("MultiLine") THEN {1, 2} ELSE {1}) :
